@@ -246,7 +246,7 @@ def b_str(I, args, kw):
 def b_bool(I, args, kw):
     if not args:
         return False
-    return pyops.mk_bool(pyops.bool_z(pyops.truth(args[0])))
+    return pyops.mk_bool(pyops.bool_z(I.truth(args[0])))
 
 
 def b_bytes(I, args, kw):
@@ -450,7 +450,7 @@ def _symgen_anyall(I, gen, is_any):
     from ..engine import _MISSING
     it = gen.fields["iter"]
     I.ctx.use("T-py:any/all over a collection of unknown size: result constrained only through designated witnesses")
-    if I.ctx.flip("symgen-nonempty"):
+    if I.ctx.decide(I.symiter_nonempty(it), "symgen-nonempty"):
         a = it.fields["mk"](I)
         I.eval_gen_element(gen, a)   # may raise (TypeError ...) exactly as some element could
     r = I.ctx.fresh_bool("any" if is_any else "all")
